@@ -50,7 +50,10 @@ pub fn after_call(
                 .u((x.term > pre.term + 1) as u64)
                 .u((pre.leader_id != 0) as u64)
                 .u((pre.vote != 0) as u64)
-                .u(new_msgs.first().map(|r| r.reject as u64).unwrap_or(2));
+                .u(new_msgs.first().map(|r| r.reject as u64).unwrap_or(2))
+                .u((pre.election_elapsed < nodes[v].cfg.election_tick) as u64)
+                .u(nodes[v].cfg.check_quorum as u64);
+            super::cluster_fp(nodes, &mut f);
             m.stats.hit("C16", f.get());
             if post.term != pre.term || post.vote != pre.vote {
                 m.violation(
@@ -194,6 +197,7 @@ pub fn after_call(
             let acked = m.g.per[v].flow.get(&u).map(|r| r.acked).unwrap_or(0);
             let mut f = Fp::new();
             f.u(3).u(op.kind()).u((post.last_index == post.committed) as u64).u(post.conf.voters.len() as u64);
+            super::cluster_fp(nodes, &mut f);
             m.stats.hit("C17", f.get());
             let mut why = None;
             if post.state != StateRole::Leader {
@@ -329,6 +333,7 @@ pub fn after_call(
                 .u((t == id) as u64)
                 .u(pre.lead_transferee.is_some() as u64)
                 .u((pre.lead_transferee == Some(t)) as u64);
+            super::cluster_fp(nodes, &mut f);
             m.stats.hit("C17", f.get());
             if !tracked || learner {
                 m.stats.inc("c17.transfer_requests_invalid_target");
